@@ -312,8 +312,24 @@ def rule_roles_glr(rep):
         )
         env = _site_env(f, gs[0], keep=("head", "to_state"))
         got = {k: _role(env, e) for k, e in _args(gs[0], gparams).items()}
+        # the frontier number: one new number for every head shifted in this round (heads held back
+        # with a longer token included), above the numbers of all of them
+        fr = got.pop("frontier", None)
+        fr_ok = fr is not None and re.fullmatch(
+            r"max\(\(?\w+\.frontier for \w+, _ in self\._for_shifter\)?\) \+ 1( if self\._for_shifter else 0)?", fr) is not None
+        if fr is not None and re.search(r"\bhead\b", fr):
+            r.violation(
+                "GLR shifted head:frontier",
+                f"the frontier number of a shifted node is derived from the shifting head (`{fr}`): a head held back "
+                "with a longer token belongs to an older frontier, so its node gets the number -- hence, with the "
+                "state, the identity -- of an older node (a tree with leaves that are not the input)",
+                node=gs[0],
+            )
+        else:
+            r.check(fr_ok, "shifted nodes get the round's new frontier number", "GLR shifted head:frontier",
+                    f"frontier number of a shifted node is `{fr}`", node=gs[0])
         _check_roles(r, "GLR shifted head", gs[0], got, {
-            "position": LEN, "frontier": ("head.frontier + 1",), "state": ("to_state",),
+            "position": LEN, "state": ("to_state",),
             "layout_content": ("head.layout_content_ahead",),
             "token_ahead": (None,), "layout_content_ahead": (None,),
         })
